@@ -300,4 +300,33 @@ PROPS = {
                 "number of perturbations) tuples plus distinct round-trip option shapes.",
         "assumptions": ["inputs <= 400 KB"],
     },
+
+    "C13": {
+        "level": "exploration",
+        "legs": {
+            "quick": [{"flavour": "asan", "runs": 9000, "seconds": 150}],
+            "thorough": [{"flavour": "asan", "runs": 150000, "seconds": 1500}],
+        },
+        "xzsim_extra": {"what": "list", "quick": 400, "thorough": 5000},
+        "nontrivial": "features",
+        "level_text": "(a) Seeded histories of lzma_index_* calls on up to three handles (append with sizes over the whole VLI range incl. "
+                      "limit territory and long runs of small records that cross the group and tree boundaries, stream flags, "
+                      "stream padding incl. invalid values, cat with an iterator kept across it, dup, encode + independent parse of "
+                      "the encoded Index + decode) against IndexModel, a list-of-records model with 128-bit arithmetic written "
+                      "from the .xz specification: after every operation that could change something every size/count/offset/"
+                      "check query, a full iteration in all four modes and sampled lzma_index_iter_locate() calls are compared; "
+                      "refused operations must leave both operands equal to the model's unchanged state. (b) lzma_file_info_"
+                      "decoder over a simulated seekable file (1-4 Streams, 0-400 Blocks incl. empty ones, all check types, "
+                      "Stream Padding 0-32): the simulator decides how many bytes each read returns (1 byte ... whole file) and "
+                      "honours every LZMA_SEEK_NEEDED; oracles: seek_pos <= file size, the resulting index equals the model built "
+                      "from the writer's field map, Blocks decoded at the returned offsets yield exactly plaintext[range). "
+                      "(c) xz --list --robot -vv as a real process under the shim: every figure equals an independent Python parse "
+                      "of the file.",
+        "level_note": "memory use is compared with lzma_index_memusage(streams, blocks) (the documented relation), not with a "
+                      "byte-exact model of the allocator.",
+        "rule": "One evaluation = one history (<= 65 ops, up to thousands of appends) or one file-info session or one xz --list run. "
+                "distinct_nontrivial = distinct plans.",
+        "assumptions": ["files <= 250 KB"],
+        "real": LZ_REAL, "stub": LZ_STUB + ["the file (simulated reads and seeks)"],
+    },
 }
